@@ -44,6 +44,10 @@ CHECKS.update(
     C01=dict(text="Three lemmas decided by z3 on the real code: (gate) every path of the real Solver.solve loop with an arbitrary step oracle: status Optimal => returned x,y,d are those of the last accepted iterate and its residual, re-evaluated by an independent oracle, is <= opt_tol; (transfer) for an arbitrary in-box internal iterate with total_res <= opt_tol, the restored x,y,d satisfy the user's KKT conditions with the statement's power-of-two tolerances, for every variable/row kind and enumerated weights |w|<=W (nlsat); (integration) IntegrationSolver.solve up to its first optimality gate against the same oracle -- three listed known findings (filter at rho vs residual at rho=0).", note="Exact reals; internal box assumed (C05); n<=2, m<=1 (thorough m<=2), W<=1 (thorough 2), K=2 (3); IntegrationSolver beyond its first gate (scipy BDF/event root finding) outside; integration gate assumes active_tol, opt_tol >= 1e-10.", ref="DESIGN.md §6 C01"),
 )
 
+CHECKS.update(
+    C14=dict(text="Symbolic execution of the four real step solvers (matrix assembly, rhs split, elimination/back-substitution, CSR surgery) and newton.py with the linear solver replaced by an exact-solve oracle (any s with M s = rhs): the returned step (dx before clipping, dy) is proved by z3/nlsat to satisfy the dense reference Newton system F'(z_hat) s = F(z) for the active set used; second simplified step uses base matrix + current residual; Simplified/Full/ActiveSet hand identical first systems to the linear solver; symbolic QPs: one step zeroes the residual. n<=2, m<=1 (thorough m<=2, Standard n=3).", note="Exact reals; linear solver assumed exact (tolerances are C17); multiplier-linear Hessian model; one listed known finding (asymmetric formulation crashes when hess[j,j]+lambda cancels exactly).", ref="DESIGN.md §6 C14"),
+)
+
 NOT_APPLICABLE = {
     "C03": "liveness/convergence of hundreds of floating-point Newton iterations with data-dependent trip count: no bounded symbolic encoding can decide it (DESIGN.md §7)",
 }
